@@ -129,9 +129,29 @@ def pyvc_run(targets, gen_sources=None, timeout_ms=10000, jobs=None, replay=True
     work = [(t, gen_sources, timeout_ms, replay) for t in targets]
     if len(work) == 1 or os.environ.get("PYVC_SERIAL"):
         return [_verify_one(w) for w in work]
+    # a pool that NOTICES a dead worker (multiprocessing.Pool waits for ever when one is killed, e.g. by the OOM killer under load - seen once:
+    # a check slept for two hours): targets whose worker died are verified again, one by one, in this process
+    from concurrent.futures import ProcessPoolExecutor
+    from concurrent.futures.process import BrokenProcessPool
     ctx = mp.get_context("fork")
-    with ctx.Pool(jobs) as pool:
-        return pool.map(_verify_one, work, chunksize=1)
+    results = {}
+    try:
+        with ProcessPoolExecutor(max_workers=jobs, mp_context=ctx) as pool:
+            futs = {pool.submit(_verify_one, w): i for i, w in enumerate(work)}
+            for f, i in futs.items():
+                try:
+                    results[i] = f.result()
+                except BrokenProcessPool:
+                    pass
+                except Exception as e:  # noqa
+                    results[i] = {"target": work[i][0], "obligations": [], "undecided": [], "paths": 0, "seconds": 0.0, "source": {}, "dropped": 0, "inlined": [],
+                                  "externals": [], "assumed_contracts": [], "canary": None, "crash": f"{type(e).__name__}: {e}"}
+    except BrokenProcessPool:
+        pass
+    for i, w in enumerate(work):
+        if i not in results:
+            results[i] = _verify_one(w)
+    return [results[i] for i in range(len(work))]
 
 
 # --------------------------------------------------------------------------------------------------
